@@ -16,6 +16,7 @@ import (
 	"os"
 	"sort"
 	"strings"
+	"time"
 
 	"github.com/codenotary/immudb/embedded/logger"
 	"github.com/codenotary/immudb/embedded/sql"
@@ -289,6 +290,8 @@ type Obs struct {
 }
 
 type env struct {
+	ctx      context.Context
+	cancel   context.CancelFunc
 	dir      string
 	st       *store.ImmuStore
 	e        *sql.Engine
@@ -314,19 +317,49 @@ func newEnv() (*env, error) {
 		os.RemoveAll(dir)
 		return nil, err
 	}
-	return &env{dir: dir, st: st, e: e}, nil
+	ctx, cancel := context.WithCancel(context.Background())
+	return &env{ctx: ctx, cancel: cancel, dir: dir, st: st, e: e}, nil
 }
-func (v *env) close() { v.st.Close(); os.RemoveAll(v.dir) }
+func (v *env) close() {
+	v.cancel()
+	done := make(chan struct{})
+	go func() { v.st.Close(); close(done) }()
+	select {
+	case <-done:
+	case <-time.After(callTimeout):
+	}
+	os.RemoveAll(v.dir)
+}
+
+// every call into the engine is bounded: a stuck indexer (an entry it cannot map) would otherwise
+// block the next snapshot forever
+const callTimeout = 20 * time.Second
+
+var errHang = errors.New("HANG: the engine did not answer within the time limit")
 
 func (v *env) exec(tx *sql.SQLTx, q string) (ntx *sql.SQLTx, err error) {
-	defer func() {
-		if r := recover(); r != nil {
-			err = fmt.Errorf("PANIC: %v", r)
-			ntx = nil
-		}
+	type res struct {
+		ntx *sql.SQLTx
+		err error
+	}
+	ch := make(chan res, 1)
+	go func() {
+		defer func() {
+			if r := recover(); r != nil {
+				ch <- res{nil, fmt.Errorf("PANIC: %v", r)}
+			}
+		}()
+		// the case-wide context: a transaction opened by BEGIN keeps using it in later calls
+		n, _, e := v.e.Exec(v.ctx, tx, q, nil)
+		ch <- res{n, e}
 	}()
-	ntx, _, err = v.e.Exec(context.Background(), tx, q, nil)
-	return
+	select {
+	case r := <-ch:
+		return r.ntx, r.err
+	case <-time.After(callTimeout):
+		v.cancel() // releases whatever the call is blocked on; the case is abandoned
+		return nil, errHang
+	}
 }
 
 func toVal(tv sql.TypedValue) (Val, error) {
@@ -344,9 +377,13 @@ func toVal(tv sql.TypedValue) (Val, error) {
 
 // table read back through the primary index by a fresh read-only transaction
 func (v *env) table() ([]TRow, error) {
-	ctx := context.Background()
+	ctx, cancel := context.WithTimeout(context.Background(), callTimeout)
+	defer cancel()
 	rd, err := v.e.Query(ctx, nil, "SELECT id, v, s FROM t", nil)
 	if err != nil {
+		if ctx.Err() != nil {
+			return nil, errHang
+		}
 		return nil, err
 	}
 	defer rd.Close()
@@ -357,6 +394,9 @@ func (v *env) table() ([]TRow, error) {
 			break
 		}
 		if err != nil {
+			if ctx.Err() != nil {
+				return nil, errHang
+			}
 			return nil, err
 		}
 		id, ok := row.ValuesByPosition[0].RawValue().(int64)
@@ -714,7 +754,15 @@ func runHistory(cfg Cfg, evs []Event) ([]Obs, []string, error) {
 		if err != nil && strings.HasPrefix(err.Error(), "PANIC") {
 			findings = append(findings, "C12 panic: "+err.Error()+" | history: "+describe(cfg, evs, i))
 		}
+		if errors.Is(err, errHang) {
+			findings = append(findings, "C12 engine hang: "+ev.SQL()+" did not return | history: "+describe(cfg, evs, i))
+			return obs, findings, errHang
+		}
 		after, terr := v.table()
+		if errors.Is(terr, errHang) {
+			findings = append(findings, "C12 engine hang: the table cannot be read back after "+ev.SQL()+" (indexing stuck?) | history: "+describe(cfg, evs, i))
+			return obs, findings, errHang
+		}
 		if terr != nil {
 			return nil, nil, fmt.Errorf("read back: %w", terr)
 		}
@@ -746,6 +794,14 @@ func rowsCoq(rows []TRow) string {
 
 func emit(r *vk.Run, cfg Cfg, evs []Event, bucket string) error {
 	obs, findings, err := runHistory(cfg, evs)
+	if errors.Is(err, errHang) {
+		// reported as a finding; the case cannot be compared with the model
+		for _, f := range findings {
+			r.Finding(f)
+		}
+		r.Stats["hang"]++
+		return nil
+	}
 	if err != nil {
 		return err
 	}
